@@ -1,4 +1,11 @@
-(* WIP *)
+(* Proofs/RunHandoffOrder.v — property C03, the composed system of Model/RunHandoff.v: whatever the
+   interleaving of executors, collector and run loop,
+   - eager mode: the run-loop component satisfies the invariant RI of Proofs/Eager.v, so two paths
+     that return a value return the same value computed from the same executions feeding END, a
+     value is never returned while a task feeding END is in flight, no node is started twice, and
+     when every failing node feeds END all paths return the same outcome;
+   - batch mode: every path that returns, returns what the canonical run (identity completion
+     order) of Model/Confluence.v returns, with the same executions. *)
 From Eino Require Import Base.Util Model.TaskMgr Model.Confluence Model.RunHandoff.
 From Eino Require Import Proofs.TaskMgr Proofs.Confluence Proofs.Eager Proofs.RunHandoff.
 From Coq Require Import Permutation.
@@ -192,7 +199,7 @@ Proof.
     match goal with H : r_ph r = PWait |- _ => rewrite H in L2 end.
     match goal with H : r_exp r = [] |- _ => rewrite H in L1 end.
     destruct L2 as [Lc _].
-    pose proof (i_count s I) as C.
+    pose proof (i_count s' I) as C.
     match goal with H : cp s' = CIdle |- _ => rewrite H in C end.
     match goal with H : num s' = 0 |- _ => rewrite H in C end.
     simpl in C, L1. rewrite Lc in C.
@@ -205,7 +212,7 @@ Proof.
     unfold resolve_eager in Hr.
     destruct (new_col s' r) as [|[t e] [|? ?]] eqn:Enc; try discriminate.
     destruct (split_task t (r_run r)) as [[x rest]|] eqn:Esp; [|discriminate].
-    destruct (negb (Bool.eqb e (failed x))); [discriminate|].
+    destruct (negb (Bool.eqb e (flag_of x))); [discriminate|].
     pose proof (split_task_perm _ _ _ _ Esp) as P.
     unfold EI in E. rewrite Hn in E. destruct E as (O & R & HS).
     specialize (L Hn). destruct L as [L1 L2].
@@ -231,4 +238,207 @@ Proof.
            rewrite Lc. simpl. rewrite app_length. split; [lia|]. split; [reflexivity|rewrite Hc; tauto].
 Qed.
 
+
+Lemma creach_ei F x : creach false Dag g F x -> EI (snd x) /\ LK (fst x) (snd x).
+Proof.
+  induction 1 as [|[s r] [s' r'] Hr IH Hs]; simpl in *.
+  - split; [apply ei_init|apply lk_init].
+  - destruct IH as [E L]. eapply ei_lk_step; try eassumption.
+    exact (creach_reach _ _ _ _ _ Hr).
+Qed.
+
+(* no node is started twice, whatever the outcome *)
+Definition log_ok (log : exec_log) : Prop :=
+  NoDup (map fst log) /\ forall y i, In (y, i) log -> y <> END /\ In y (map n_id g).
+
+Lemma ri_log_ok s running O log : RI g s running O log -> log_ok log.
+Proof.
+  intros R. split; [apply (ri_log_nd _ _ _ _ _ R)|].
+  intros y i K. destruct (ri_log_in _ _ _ _ _ R y i K) as (K1 & n & K2 & K3 & _).
+  split; [exact K1|]. rewrite <- K3. apply in_map, K2.
+Qed.
+
+Lemma creach_log_ok F x : creach false Dag g F x -> log_ok (r_log (snd x)).
+Proof.
+  induction 1 as [|[s r] [s' r'] Hr IH Hs]; simpl in *.
+  - pose proof (ei_init F) as E. unfold EI, rl_init in *.
+    destruct (start_next Dag g) as [vE|ts s]; simpl in *.
+    + split; [constructor|intros y i []].
+    + destruct E as (O & R & _). eapply ri_log_ok; exact R.
+  - assert (E' : EI r').
+    { destruct (creach_ei F (s', r')) as [K _]; [eapply cr_step; eassumption|exact K]. }
+    destruct (r_res r') eqn:Er.
+    + (* returned: the log is the one of the state before *)
+      assert (r_log r' = r_log r); [|congruence].
+      inversion Hs; subst; try reflexivity; try discriminate.
+      match goal with H : resolve_eager _ _ _ = Some _ |- _ => rename H into Hq end.
+      unfold resolve_eager in Hq.
+      destruct (new_col s' r) as [|[t e] [|? ?]]; try discriminate.
+      destruct (split_task t (r_run r)) as [[x rest]|]; [|discriminate].
+      destruct (negb (Bool.eqb e (flag_of x))); [discriminate|].
+      destruct (failed x); [inversion Hq; reflexivity|].
+      destruct (calc_next Dag g (r_ch r) [run_task x]); inversion Hq; subst; [reflexivity|discriminate].
+    + unfold EI in E'. rewrite Er in E'. destruct E' as (O & R & _). eapply ri_log_ok; exact R.
+Qed.
+
 End EagerStep.
+
+(* ================================================================== eager mode: the theorems *)
+
+Theorem combined_eager_value_unique g F1 F2 s1 r1 s2 r2 v1 v2 :
+  NoDup (map n_id g) -> ~ In START (map n_id g) ->
+  creach false Dag g F1 (s1, r1) -> creach false Dag g F2 (s2, r2) ->
+  r_res r1 = Some (ODone v1) -> r_res r2 = Some (ODone v2) ->
+  v1 = v2 /\ Permutation (feeding g (r_log r1)) (feeding g (r_log r2)).
+Proof.
+  intros Hnd Hs C1 C2 E1 E2.
+  destruct (creach_ei g Hnd Hs F1 _ C1) as [D1 _]. destruct (creach_ei g Hnd Hs F2 _ C2) as [D2 _].
+  unfold EI in D1, D2. simpl in *. rewrite E1 in D1. rewrite E2 in D2.
+  exact (done_unique g Hnd Hs _ _ _ _ _ _ D1 D2).
+Qed.
+
+Theorem combined_eager_confluent g F1 F2 s1 r1 s2 r2 o1 o2 :
+  NoDup (map n_id g) -> ~ In START (map n_id g) -> failing_feed_end g ->
+  creach false Dag g F1 (s1, r1) -> creach false Dag g F2 (s2, r2) ->
+  r_res r1 = Some o1 -> r_res r2 = Some o2 ->
+  o1 = o2 /\ (forall v, o1 = ODone v -> Permutation (feeding g (r_log r1)) (feeding g (r_log r2))).
+Proof.
+  intros Hnd Hs Hff C1 C2 E1 E2.
+  destruct (creach_ei g Hnd Hs F1 _ C1) as [D1 _]. destruct (creach_ei g Hnd Hs F2 _ C2) as [D2 _].
+  unfold EI in D1, D2. simpl in *. rewrite E1 in D1. rewrite E2 in D2.
+  destruct o1 as [v1| |], o2 as [v2| |]; try contradiction.
+  - destruct (done_unique g Hnd Hs _ _ _ _ _ _ D1 D2) as [-> P]. split; [reflexivity|intros _ _; exact P].
+  - exfalso. destruct D2 as [pick D2]. exact (done_fail_absurd g Hnd Hs _ _ _ _ Hff D1 D2).
+  - exfalso. destruct D1 as [pick D1]. exact (done_fail_absurd g Hnd Hs _ _ _ _ Hff D2 D1).
+  - split; [reflexivity|discriminate].
+Qed.
+
+Theorem combined_eager_ancestors_finished g F s r v :
+  NoDup (map n_id g) -> ~ In START (map n_id g) ->
+  creach false Dag g F (s, r) -> r_res r = Some (ODone v) ->
+  forall x, In x (ids_of (r_run r)) -> ~ In x (ancestors g).
+Proof.
+  intros Hnd Hs C E. destruct (creach_ei g Hnd Hs F _ C) as [D _]. unfold EI in D. simpl in D. rewrite E in D.
+  exact (done_left g Hnd _ _ _ D).
+Qed.
+
+Theorem combined_eager_starts_once g F s r :
+  NoDup (map n_id g) -> ~ In START (map n_id g) ->
+  creach false Dag g F (s, r) ->
+  NoDup (map fst (r_log r)) /\ (forall y i, In (y, i) (r_log r) -> y <> END /\ In y (map n_id g)).
+Proof. intros Hnd Hs C. exact (creach_log_ok g Hnd Hs F _ C). Qed.
+
+(* ================================================================== batch mode *)
+
+Lemma split_task_in t run x rest : split_task t run = Some (x, rest) -> In x run.
+Proof. intros H. apply (Permutation_in _ (Permutation_sym (split_task_perm _ _ _ _ H))). left; reflexivity. Qed.
+
+Lemma lookup_all_spec es : forall run cts,
+  lookup_all es run = Some cts -> map tid cts = map fst es /\ incl cts run.
+Proof.
+  induction es as [|[t e] es IH]; simpl; intros run cts H.
+  - inversion H; subst. split; [reflexivity|intros x []].
+  - destruct (split_task t run) as [[x rest]|] eqn:Es; [|discriminate].
+    destruct (lookup_all es run) as [xs|] eqn:El; [|discriminate].
+    destruct (Bool.eqb e (flag_of x)); [|discriminate]. inversion H; subst.
+    destruct (IH _ _ El) as [A B]. split.
+    + simpl. rewrite A. f_equal. eapply split_task_tid; exact Es.
+    + intros y [<-|Hy]; [eapply split_task_in; exact Es|apply B, Hy].
+Qed.
+
+Lemma In_firstn {A} k (l : list A) x : In x (firstn k l) -> In x l.
+Proof.
+  revert k. induction l as [|a l IH]; intros [|k]; simpl; try tauto.
+  intros [->|K]; [left; reflexivity|right; eapply IH; exact K].
+Qed.
+
+Lemma NoDup_firstn {A} k (l : list A) : NoDup l -> NoDup (firstn k l).
+Proof.
+  revert k. induction l as [|a l IH]; intros [|k] H; simpl; try constructor.
+  - inversion H; subst. intros K. apply H2. eapply In_firstn; exact K.
+  - inversion H; subst. apply IH; assumption.
+Qed.
+
+Lemma new_col_nodup s r : NoDup (map fst (collected s)) -> NoDup (map fst (new_col s r)).
+Proof.
+  intros H. unfold new_col. rewrite map_rev. apply NoDup_rev. rewrite <- firstn_map. apply NoDup_firstn, H.
+Qed.
+
+Lemma existsb_perm {A} (f : A -> bool) l l' : Permutation l l' -> existsb f l = existsb f l'.
+Proof.
+  induction 1; simpl; try congruence.
+  destruct (f x), (f y); reflexivity.
+Qed.
+
+Section Batch.
+Variables (m : mode) (g : graph) (F : nat).
+Hypothesis Hnd : NoDup (map n_id g).
+
+Definition BI (r : rl) : Prop :=
+  match r_res r with
+  | Some o => (o, r_log r) = batch (fun l => l) m g F
+  | None => exists ch' log0, ceq (r_ch r) ch' /\ r_log r = log0 ++ log_of (r_run r) /\ tasks_ok (r_run r) /\
+            run_batch (fun l => l) m g (S (r_fuel r)) ch' (r_run r) log0 = batch (fun l => l) m g F
+  end.
+
+Lemma bi_init : BI (rl_init true m g F).
+Proof.
+  unfold BI, rl_init, batch. destruct (start_next m g) as [v|ts ch] eqn:E; simpl; [reflexivity|].
+  destruct F as [|f]; simpl; [reflexivity|].
+  exists ch, []. split; [apply ceq_refl|]. split; [reflexivity|]. split; [|reflexivity].
+  eapply calc_next_tasks_ok; [exact Hnd|exact E].
+Qed.
+
+Lemma bi_step s r s' r' : reach s -> cstep true m g (s, r) (s', r') -> BI r -> BI r'.
+Proof.
+  intros Rs Hs B. inversion Hs; subst; try exact B; try discriminate.
+  match goal with H : resolve_batch _ _ _ _ = Some _ |- _ => rename H into Hr end.
+  match goal with H : r_res r = None |- _ => rename H into Hn end.
+  unfold BI in B. rewrite Hn in B. destruct B as (ch' & log0 & Hc & Hl & Hok & Hb).
+  unfold resolve_batch in Hr.
+  destruct (lookup_all (new_col s' r) (r_run r)) as [cts|] eqn:El; [|discriminate].
+  destruct (Nat.eqb (List.length cts) (List.length (r_run r))) eqn:Elen; simpl in Hr; [|discriminate].
+  apply Nat.eqb_eq in Elen.
+  destruct (lookup_all_spec _ _ _ El) as [Hids Hincl].
+  assert (Hndc : NoDup (map tid cts)).
+  { rewrite Hids. apply new_col_nodup. destruct (exactly_once s' Rs) as (_ & _ & K & _). exact K. }
+  assert (P : Permutation cts (r_run r)).
+  { apply NoDup_Permutation_bis; [eapply NoDup_map_inv; exact Hndc|lia|exact Hincl]. }
+  cbn [run_batch] in Hb. rewrite <- Hl in Hb.
+  rewrite <- (existsb_perm failed _ _ P) in Hb.
+  destruct (existsb failed cts).
+  { inversion Hr; subst. unfold BI; simpl. exact Hb. }
+  destruct cts as [|c0 cts0].
+  { simpl in Elen. symmetry in Elen. apply length_zero_nil in Elen. rewrite Elen in Hb.
+    inversion Hr; subst. unfold BI; simpl. exact Hb. }
+  destruct (r_run r) as [|t0 run0] eqn:Erun; [simpl in Elen; discriminate|].
+  set (cts := c0 :: cts0) in *. set (run := t0 :: run0) in *.
+  assert (K : next_eq (calc_next m g (r_ch r) (map run_task cts)) (calc_next m g ch' (map run_task run))).
+  { apply calc_next_perm; [apply Permutation_map, P| |exact Hc].
+    rewrite map_map. exact Hndc. }
+  destruct (calc_next m g (r_ch r) (map run_task cts)) as [v|ts s1] eqn:E1;
+    destruct (calc_next m g ch' (map run_task run)) as [v'|ts' s1'] eqn:E2; simpl in K; try contradiction.
+  - subst v'. inversion Hr; subst. unfold BI; simpl. exact Hb.
+  - destruct K as [<- K]. inversion Hr; subst. unfold BI, enter.
+    destruct (r_fuel r) as [|f'] eqn:Ef; simpl.
+    + exact Hb.
+    + exists s1', (r_log r). split; [exact K|]. split; [reflexivity|]. split; [|exact Hb].
+      eapply calc_next_tasks_ok; [exact Hnd|exact E2].
+Qed.
+
+Lemma creach_bi x : creach true m g F x -> BI (snd x).
+Proof.
+  induction 1 as [|[s r] [s' r'] Hr IH Hs]; simpl in *; [apply bi_init|].
+  eapply bi_step; try eassumption. exact (creach_reach _ _ _ _ _ Hr).
+Qed.
+
+End Batch.
+
+(* whatever the interleaving, a batch run that returns, returns the outcome and the executions of
+   the canonical run (every step resolved in submission order) *)
+Theorem combined_batch_result m g F s r o :
+  NoDup (map n_id g) -> creach true m g F (s, r) -> r_res r = Some o ->
+  (o, r_log r) = batch (fun l => l) m g F.
+Proof.
+  intros Hnd C E. pose proof (creach_bi m g F Hnd _ C) as B. unfold BI in B. simpl in B. rewrite E in B. exact B.
+Qed.
